@@ -146,7 +146,7 @@ def gen_config(rng, case, force=None, allow_collision=False):
         # between the parent's `empty()` test and its liveness test with high probability
         cfg["put_delay"], cfg["alive_delay"] = 0.12, 0.04
     r = rng.random()
-    if r < 0.25:
+    if r < 0.3:
         k = rng.randrange(2)
         cfg["broken"] = [k, rng.randrange(len(case["sets"][k]))]
         cfg["skip"] = rng.random() < 0.8
@@ -295,9 +295,17 @@ def run_real(case, cfg, sets, root):
     return res
 
 
+class CorruptResult(Exception):
+    pass
+
+
 def ds_pairs(ds):
-    p = ds["Collocations/pairs"].values
-    return list(zip(ds["s0/id"].values[p[0]].tolist(), ds["s1/id"].values[p[1]].tolist()))
+    """the collocations of a compact collocation dataset as (id_p, id_s) label pairs"""
+    try:
+        p = ds["Collocations/pairs"].values
+        return list(zip(ds["s0/id"].values[p[0]].tolist(), ds["s1/id"].values[p[1]].tolist()))
+    except Exception as e:      # pair indices pointing outside the data etc.
+        raise CorruptResult(f"{type(e).__name__}: {e}")
 
 
 # ---------------------------------------------------------------- one run = real + model + oracle
@@ -352,6 +360,16 @@ def check_run(ck, case, cfg, scratch, use_model=True):
                 for p, ss in real_matches)
         # ---- totals
         got, crashed_marker, names, contents = [], 0, [], {}
+        try:
+            if r["error"] is None and cfg["output"] == "memory":
+                for item in r["results"]:
+                    if item is not CM.ProcessCrashed:
+                        ds_pairs(item[0])
+        except CorruptResult as e:
+            ck.case(kind="corrupt-result")
+            ck.violation("corrupt-result", f"processes={cfg['procs']} bundle={cfg['bundle']}: a yielded dataset is inconsistent "
+                                           f"(Collocations/pairs does not index its data): {e}", full)
+            return True
         if r["error"] is None:
             if cfg["output"] == "memory":
                 for item in r["results"]:
@@ -368,7 +386,12 @@ def check_run(ck, case, cfg, scratch, use_model=True):
                 out = r["out"]
                 for f in out.find(start - dt.timedelta(days=3), end + dt.timedelta(days=3), no_files_error=False):
                     ds = out.read(f)
-                    got += ds_pairs(ds)
+                    try:
+                        got += ds_pairs(ds)
+                    except CorruptResult as e:
+                        ck.case(kind="corrupt-result")
+                        ck.violation("corrupt-result", f"output file {os.path.basename(f.path)} is inconsistent: {e}", full)
+                        return True
                     contents[((f.times[0] - EPOCH) // US, (f.times[1] - EPOCH) // US)] = sorted(ds_pairs(ds))
                     # named by the time span of the collocations it holds
                     tp = ds["s0/time"].values
@@ -447,13 +470,20 @@ def check_run(ck, case, cfg, scratch, use_model=True):
         bp = [str(pos[0][cfg["broken"][1]])] if cfg["broken"] and cfg["broken"][0] == 0 else []
         bs = [str(pos[1][cfg["broken"][1]])] if cfg["broken"] and cfg["broken"][0] == 1 else []
         b = {None: "n", "primary": "p", "daily": "d"}[cfg["bundle"]]
-        lines.append(f"cf {b} {1 if cfg['skip'] else 0} {cfg['procs']} M {' '.join(mtoks)} R {' '.join(rtoks)} BP {' '.join(bp)} BS {' '.join(bs)}")
-        lines.append(f"chunks {min(cfg['procs'], max(len(real_matches), 1))} {len(real_matches)}")
+        lines.append(f"cf {b} {1 if cfg['skip'] else 0} {'-' if cfg['procs'] is None else cfg['procs']} M {' '.join(mtoks)} R {' '.join(rtoks)} BP {' '.join(bp)} BS {' '.join(bs)}")
+        pn = 1 if cfg["procs"] is None else cfg["procs"]
+        lines.append(f"chunks {min(pn, max(len(real_matches), 1))} {len(real_matches)}")
         outl = ck.driver(lines)
         # (a)
         real_m = "no-files" if match_err else (" ".join(f"{pos[0][p]}:" + ",".join(str(pos[1][s]) for s in ss) for p, ss in real_matches) or "-")
         if outl[0] != real_m:
             ck.disagree(f"match: model '{outl[0][:120]}' vs code '{real_m[:120]}'", full)
+        # (c) the model's array_split against numpy's (the function the code calls)
+        import numpy as np
+        nk = min(pn, max(len(real_matches), 1))
+        np_sizes = " ".join(str(len(c)) for c in np.array_split(np.arange(len(real_matches)), nk))
+        if outl[2] != np_sizes:
+            ck.disagree(f"array_split({len(real_matches)}, {nk}): model '{outl[2]}' vs numpy '{np_sizes}'", full)
         # (b)
         if match_err or r["error"] is not None:
             return True
@@ -477,7 +507,7 @@ def check_run(ck, case, cfg, scratch, use_model=True):
                 return "R" + ".".join(map(str, seen)) + ("" if sorted(prs) == exp else "!")
             return "R"
         nworkers = max(1, len(outl[1].split(" | "))) if outl[1] not in ("nothing", "value-error") else 0
-        per = [[] for _ in range(max(nworkers, cfg["procs"]))]
+        per = [[] for _ in range(max(nworkers, pn))]
         for name, progress, result in r["get_log"]:
             per[CM.PROCESS_NAMES.index(name)].append(show(result))
         while len(per) > nworkers and not per[-1]:
@@ -660,7 +690,7 @@ def main():
             run_corpus_case(ck, c, scratch, use_model)
         if use_model:
             parent_schedules(ck, ck.budget(150, 3000))
-        explore(ck, ck.budget(11, 110), 2 if ck.tier == "quick" else 6, scratch, use_model)
+        explore(ck, ck.budget(15, 110), 2 if ck.tier == "quick" else 6, scratch, use_model)
         if ck.broken() and not ck.violations:
             # failing-input search on the real code (oracle only) with the larger budget
             explore(ck, 60 if ck.tier == "quick" else 150, 4, scratch, use_model=False)
